@@ -66,6 +66,8 @@ def run(an: Analysis, rep):
     rep.rule("R01.5", "inverse-pair constants", 3)
     from .common import purity
     rep.run(purity, an, rep, "R01.P", ["from_code", "to_code"])
+    from .common import assert_guard_rule as _agrx
+    rep.run(_agrx, an, rep, "R01.A2", ["from_code", "to_code"])
     interps = []
     dcs = data_classes(an)
     produced_any = {}
